@@ -16,12 +16,15 @@ Rules (SQLite "File Locking And Concurrency", rollback journal):
 * `BEGIN IMMEDIATE` takes RESERVED up front (waits like a write from `none`);
 * `COMMIT` of a writer goes RESERVED → PENDING, then waits until no other connection holds SHARED.
 
+`work` is not an SQL statement: it marks text-dependent computation between statements (`_parse(txt)`,
+`pickle.dumps`, `pickle.loads`), so that "no lock is held while the text is parsed" can be stated.
+
 A *waiting* statement is a step that leaves the connection unchanged (it is retried); the busy
 timeout itself (5 s in Python's `sqlite3`) is not modelled — see `Props/C02.lean`.
 -/
 namespace PymocaVerif.SqliteLock
 
-inductive Stmt | beginD | beginI | read | write | commit
+inductive Stmt | beginD | beginI | read | write | commit | work
   deriving DecidableEq, Repr
 
 inductive Lock | none | shared | reserved | pending
@@ -62,6 +65,7 @@ def next (c : Conn) (s : Stmt) (rp pd sh : Bool) : Conn :=
       | .reserved => { c with lock := .pending }
       | .pending => if sh then c else { c with pc := c.pc + 1, lock := .none, inTxn := false }
       | _ => { c with pc := c.pc + 1, lock := .none, inTxn := false }
+  | .work => { c with pc := c.pc + 1 }
 
 /-- Static check of one path from an abstract lock state: never writes while holding only SHARED,
     never nests BEGIN, never ends inside a transaction. -/
@@ -72,6 +76,18 @@ def okFrom : Lock → Bool → List Stmt → Bool
   | l, t, .read :: r => okFrom (if l == .none && t then .shared else l) t r
   | l, t, .write :: r => l != .shared && okFrom (if t then .reserved else l) t r
   | _, _, .commit :: r => okFrom .none false r
+  | l, t, .work :: r => okFrom l t r
+
+/-- Static check of one path: text-dependent work happens only outside transactions (so lock hold times do not
+    depend on the size of the text being parsed). -/
+def workFrom : Bool → List Stmt → Bool
+  | _, [] => true
+  | _, .beginD :: r => workFrom true r
+  | _, .beginI :: r => workFrom true r
+  | _, .commit :: r => workFrom false r
+  | t, .work :: r => !t && workFrom t r
+  | t, .read :: r => workFrom t r
+  | t, .write :: r => workFrom t r
 
 /-! ### Programs: the statement tree of `parse` as extracted from the source -/
 
@@ -100,6 +116,11 @@ def pathOk (p : Path) : Bool := okFrom .none false (p.map (·.1))
 /-- On every path: no write inside a transaction that has only read so far, no nested BEGIN,
     every transaction closed. -/
 def noUpgrade (p : Prog) : Bool := (paths p).all pathOk
+
+def pathWorkOk (p : Path) : Bool := workFrom false (p.map (·.1))
+
+/-- On every path: `_parse` / pickling run outside every transaction. -/
+def noWorkInsideTxn (p : Prog) : Bool := (paths p).all pathWorkOk
 
 /-! ### Any number of connections -/
 
